@@ -562,4 +562,3 @@ func (h *Harness) register() error {
 	}
 	return nil
 }
-
